@@ -407,7 +407,7 @@ func (t *FnTrans) calleeContractSpeaksOfNil(v ssa.Value) bool {
 	if callee == nil {
 		return false
 	}
-	con := t.W.contractFor(callee)
+	con := t.W.contractForView(callee, t.view())
 	if con == nil {
 		return false
 	}
